@@ -296,3 +296,118 @@ def ready_constants(ctx: Ctx, rule: str):
                  f"PEER_READY_STATES = {sorted(ready)} is not exactly (PEER_READY, "
                  f"PEER_READY_WAITING_DWA): connections that have not completed the capabilities "
                  f"exchange or are disconnecting are routed to")
+
+
+def route_answer_discipline(ctx: Ctx, rule: str):
+    """route_answer deletes the pending-request record before it can return a connection
+    (a second submission finds nothing and raises), returns only a ready connection of the
+    waiting host, and raises NotRoutable on every other path before anything is queued."""
+    from ..atoms import Atomizer, must_facts
+    from ..srcmodel import AnalysisError
+    model = ctx.model
+    nc = model.cls("node.node", "Node")
+    f = nc.methods.get("route_answer")
+    if f is None:
+        raise AnalysisError("Node.route_answer not found")
+    ctx.use(f)
+    g = cfg_of(f)
+    at = Atomizer(model, f.module, nc)
+    peer_mod = model.module("node.peer")
+    READY = frozenset(model.fold_name(peer_mod, "PEER_READY_STATES"))
+    ctx.rule(rule, "route_answer: delete-before-return, ready filter, host match, NotRoutable "
+                   "otherwise", floor=4)
+    rets = [n for n in g.nodes if n.kind == "stmt" and isinstance(n.ast, ast.Return)
+            and n.ast.value is not None]
+    dels = [n for n in g.nodes if n.kind == "stmt" and (
+        any(isinstance(t, ast.Subscript) and "_peer_waiting_answer" in ast.unparse(t) for t in n.deletes())
+        or any(isinstance(c.func, ast.Attribute) and c.func.attr == "pop"
+               and "_peer_waiting_answer" in ast.unparse(c.func.value) for c in n.calls()))]
+    cons = "route_answer:delete-before-return"
+    ctx.inst(cons, rule=rule, sample={"deletes": [g.loc(n) for n in dels], "returns": [g.loc(n) for n in rets]})
+    if not rets:
+        raise AnalysisError("route_answer has no return")
+    for r in rets:
+        if not g.dominated(r, dels):
+            ctx.fail(cons, g.loc(r), "route_answer can return a connection without having removed "
+                     "the pending-request record: a second answer for the same request (e.g. from a "
+                     "deadline fallback racing the worker) is routed and transmitted as well",
+                     rule=rule)
+    # the delete removes the record of exactly this answer's id under the waiting host
+    mid = None
+    for n in g.nodes:
+        if n.kind == "stmt" and isinstance(n.ast, ast.Assign) and \
+                ast.unparse(n.ast.value).endswith(".header.hop_by_hop_identifier"):
+            mid = A.dotted(n.ast.targets[0])
+    for d in dels:
+        txt = d.text(200)
+        if mid and f"[{mid}]" not in txt and f"({mid}" not in txt:
+            ctx.fail(cons + "#key", g.loc(d), f"the record removed is not the one of the answer's "
+                     f"hop-by-hop id `{mid}`: `{txt}`", rule=rule)
+    # ready filter and host match on the returned connection
+    cons = "route_answer:returns-ready-requester"
+    ctx.inst(cons, rule=rule)
+    for r in rets:
+        v = r.ast.value
+        cvar = A.dotted(v.elts[0]) if isinstance(v, ast.Tuple) and v.elts else A.dotted(v)
+        facts = must_facts(g, at, r)
+        ready = (f"{cvar}.state", "in", READY, True) in facts
+        if not ready:
+            ctx.fail(cons, g.loc(r), f"route_answer returns `{cvar}` without requiring its state to "
+                     f"be in PEER_READY_STATES: an answer is transmitted on a connection that is "
+                     f"DISCONNECTING (after a DPR/DPA) or closing instead of raising NotRoutable",
+                     rule=rule)
+        # the connection variable is assigned only under host identity equality
+        assigns = [n for n in g.nodes if n.kind == "stmt" and isinstance(n.ast, ast.Assign)
+                   and any(A.dotted(t) == cvar for t in n.ast.targets)
+                   and not (isinstance(n.ast.value, ast.Constant) and n.ast.value.value is None)]
+        for a_ in assigns:
+            fa = must_facts(g, at, a_)
+            if not any(f_[1] == "==x" and f_[3] and "host_identity" in f_[0] + str(f_[2]) for f_ in fa):
+                ctx.fail(cons + "#host", g.loc(a_), "the connection chosen for the answer is not "
+                         "required to be the waiting host's (host identity equality)", rule=rule)
+    # every other exit raises NotRoutable
+    cons = "route_answer:not-routable"
+    ctx.inst(cons, rule=rule)
+    raises = [n for n in g.nodes if n.kind == "stmt" and isinstance(n.ast, ast.Raise)]
+    if not raises or not all("NotRoutable" in ast.unparse(n.ast) for n in raises):
+        ctx.fail(cons, f.loc(), "route_answer does not raise NotRoutable when the answer cannot be routed",
+                 rule=rule)
+    r = g.reach([g.entry], blocked=rets)
+    if g.exit in r:
+        ctx.fail(cons + "#silent", f.loc(), "route_answer can fall off the end (returns None) "
+                 "instead of raising NotRoutable", rule=rule)
+    # nothing is queued inside route_answer
+    if any(n.has_call("send_message") or n.has_call("add_out_msg") for n in g.nodes):
+        ctx.fail(cons + "#sends", f.loc(), "route_answer itself queues a message", rule=rule)
+    # Application.send_answer sends exactly on the returned connection
+    app = model.cls("node.application", "Application")
+    sa = app.methods.get("send_answer")
+    cons = "Application.send_answer"
+    ctx.inst(cons, rule=rule)
+    if sa is None:
+        ctx.error("Application.send_answer not found", rule=rule)
+        return
+    ctx.use(sa)
+    gs = cfg_of(sa)
+    routes = [n for n in gs.nodes if n.has_call("route_answer")]
+    sends = [n for n in gs.nodes if n.has_call("send_message")]
+    if len(routes) != 1 or len(sends) != 1 or not gs.dominated(sends[0], routes):
+        ctx.fail(cons, sa.loc(), "send_answer does not route the answer (route_answer) before "
+                 "sending it exactly once", rule=rule)
+    else:
+        tgt = A.store_targets(routes[0].ast)
+        first = None
+        if tgt and isinstance(routes[0].ast.targets[0], ast.Tuple):
+            first = A.dotted(routes[0].ast.targets[0].elts[0])
+        call = [c for c in sends[0].calls() if A.call_name(c).endswith("send_message")][0]
+        mparam = [a.arg for a in sa.node.args.args][1]
+        if first is None or A.dotted(call.args[0]) != first or A.dotted(call.args[1]) != mparam:
+            ctx.fail(cons, gs.loc(sends[0]), "send_answer does not send the submitted answer on the "
+                     "connection returned by route_answer", rule=rule)
+        if any(isinstance(x, ast.Try) for x in sends[0].lexical + routes[0].lexical):
+            trs = [x for x in routes[0].lexical if isinstance(x, ast.Try)]
+            for t in trs:
+                for h in t.handlers:
+                    if not any(isinstance(s_, ast.Raise) for s_ in ast.walk(h)):
+                        ctx.fail(cons + "#swallow", sa.loc(h), "send_answer swallows the "
+                                 "not-routable error", rule=rule)
